@@ -741,7 +741,7 @@ class World(object):
         finally:
             self.pop()
 
-    def op_settle(self, a, rounds=12):
+    def op_settle(self, a, rounds=300):
         """the broker answers everything it has been sent, until nothing is outstanding"""
         for _ in range(rounds):
             conn = self.live(a)
